@@ -78,6 +78,60 @@ def _is_fresh_id(t):
     return False
 
 
+def _is_alloc_bound(t):
+    """alloc constant (+ non-negative numeral) (+ non-negative list length ...): a bound that is >= alloc0"""
+    t = z3.simplify(t)
+    if z3.is_const(t) and t.decl().kind() == z3.Z3_OP_UNINTERPRETED:
+        n = t.decl().name()
+        return n == "alloc0" or n.startswith("alloc!")
+    if z3.is_add(t):
+        ok_alloc = False
+        for c in t.children():
+            if z3.is_int_value(c):
+                if c.as_long() < 0:
+                    return False
+            elif z3.is_const(c) and c.decl().kind() == z3.Z3_OP_UNINTERPRETED and (c.decl().name() == "alloc0" or c.decl().name().startswith("alloc!")):
+                ok_alloc = True
+            elif z3.is_app(c) and c.decl().kind() == z3.Z3_OP_SELECT and z3.is_const(c.arg(0)) and "list.len" in c.arg(0).decl().name():
+                pass            # a list length (>= 0 for existing lists; the engine only adds lengths of existing lists to alloc)
+            else:
+                return False
+        return ok_alloc
+    return False
+
+
+def _alloc_lambda_old(a):
+    """a = (lambda o. if o <= B then old[o] else junk[o]) with B >= alloc0  (effect of a callee / loop that may allocate):  old"""
+    if not z3.is_quantifier(a) or not a.is_lambda() or a.num_vars() != 1:
+        return None
+    b = a.body()
+    if not z3.is_app(b) or b.decl().kind() != z3.Z3_OP_ITE:
+        return None
+    c, t, _e = b.children()
+    if not (z3.is_app(c) and c.decl().kind() == z3.Z3_OP_LE and z3.is_var(c.arg(0)) and _is_alloc_bound(c.arg(1))):
+        return None
+    if z3.is_app(t) and t.decl().kind() == z3.Z3_OP_SELECT and z3.is_var(t.arg(1)):
+        old = t.arg(0)
+        # the old array must not mention the bound variable
+        return old if not _mentions_var(old) else None
+    return None
+
+
+def _mentions_var(t):
+    stack, seen = [t], set()
+    while stack:
+        x = stack.pop()
+        if x.get_id() in seen:
+            continue
+        seen.add(x.get_id())
+        if z3.is_var(x):
+            return True
+        if z3.is_quantifier(x):
+            continue
+        stack.extend(x.children())
+    return False
+
+
 def _is_h0_array(a):
     """an array of the entry heap: H0!<name>, or a row of one (select(H0!list.I, l))"""
     while z3.is_app(a) and a.decl().kind() == z3.Z3_OP_SELECT:
@@ -90,24 +144,148 @@ def _is_prestate_ref(t, params):
     Assumption recorded in evidence: heap well-formedness at entry -- no cell of the entry heap holds a reference to an object
     that does not exist yet."""
     if z3.is_const(t) and t.decl().kind() == z3.Z3_OP_UNINTERPRETED:
-        return t.decl().name() in params
+        return t.decl().name() in params or t.decl().name().startswith("G0!")      # a parameter, or the entry value of a ghost / global reference
     return z3.is_app(t) and t.decl().kind() == z3.Z3_OP_SELECT and _is_h0_array(t.arg(0))
 
 
+LOOK_THROUGH_FINAL = [True]   # off for contracts that prove clauses from lemmas alone (there the F! constants must stay opaque)
 ARRAY_DEFS = {}     # name of a final-heap constant F!<array> -> the term it is defined by (verify.exit_normal)
 
 
+ALLOC_LB = {}       # alloc!k -> (name of an earlier alloc constant, n): alloc!k >= that constant + n  (recorded where alloc!k is created)
+
+
+def _alloc_form(t):
+    """t = A + c (+ non-negative list lengths) with A an alloc constant: (A's name, c, has_len_terms); else None"""
+    t = z3.simplify(t)
+    if z3.is_const(t) and t.decl().kind() == z3.Z3_OP_UNINTERPRETED:
+        n = t.decl().name()
+        return (n, 0, False) if (n == "alloc0" or n.startswith("alloc!")) else None
+    if z3.is_add(t):
+        name, c, lens = None, 0, False
+        for x in t.children():
+            if z3.is_int_value(x):
+                c += x.as_long()
+            elif z3.is_const(x) and x.decl().kind() == z3.Z3_OP_UNINTERPRETED and (x.decl().name() == "alloc0" or x.decl().name().startswith("alloc!")):
+                if name is not None:
+                    return None
+                name = x.decl().name()
+            elif z3.is_app(x) and x.decl().kind() == z3.Z3_OP_SELECT and z3.is_const(x.arg(0)) and "list.len" in x.arg(0).decl().name():
+                lens = True
+            else:
+                return None
+        return (name, c, lens) if name is not None else None
+    return None
+
+
+def record_alloc(new_const, old_term):
+    f = _alloc_form(old_term)
+    if f is not None:
+        ALLOC_LB[new_const.decl().name()] = (f[0], f[1])       # new >= A + c (+ lengths >= 0)
+
+
+def _lower_bound_over(name, base):
+    """largest known n with  name >= base + n ; None if base is not below name in the allocation chain"""
+    n, cur = 0, name
+    for _ in range(1000):
+        if cur == base:
+            return n
+        if cur not in ALLOC_LB:
+            return None
+        cur, d = ALLOC_LB[cur][0], ALLOC_LB[cur][1]
+        n += d
+    return None
+
+
+def _le_bound(idx, bound, params):
+    """is idx <= bound?  True / False / None (unknown).  idx: a reference term; bound: an allocation bound"""
+    bf = _alloc_form(bound)
+    if bf is None:
+        return None
+    if _is_prestate_ref(idx, params):
+        return True                     # existed at entry: <= alloc0 <= every later bound
+    f = _alloc_form(idx)
+    if f is None or f[2]:
+        return None
+    (x, c, _), (y, d, ylens) = f, bf
+    lb = _lower_bound_over(y, x)        # y >= x + lb
+    if lb is not None and lb + d >= c:
+        return True
+    if not ylens:
+        lb2 = _lower_bound_over(x, y)   # x >= y + lb2
+        if lb2 is not None and lb2 + c > d:
+            return False
+    return None
+
+
+def _distinct_refs(i, j, params):
+    """are the two reference terms certainly different objects?"""
+    pi, pj = _is_prestate_ref(i, params), _is_prestate_ref(j, params)
+    fi, fj = _alloc_form(i), _alloc_form(j)
+    if (pi and fj is not None and fj[1] >= 1) or (pj and fi is not None and fi[1] >= 1):
+        return True                     # one existed at entry, the other was allocated later
+    if fi is not None and fj is not None and not fi[2] and not fj[2]:
+        if fi[0] == fj[0]:
+            return fi[1] != fj[1]
+        lb = _lower_bound_over(fi[0], fj[0])
+        if lb is not None and lb + fi[1] > fj[1]:
+            return True
+        lb = _lower_bound_over(fj[0], fi[0])
+        if lb is not None and lb + fj[1] > fi[1]:
+            return True
+    return False
+
+
+def _alloc_lambda_parts(a):
+    """a = (lambda o. if o <= B then old[o] else junk[o]):  (B, old, junk)"""
+    if not z3.is_quantifier(a) or not a.is_lambda() or a.num_vars() != 1:
+        return None
+    b = a.body()
+    if not z3.is_app(b) or b.decl().kind() != z3.Z3_OP_ITE:
+        return None
+    c, t, e = b.children()
+    if not (z3.is_app(c) and c.decl().kind() == z3.Z3_OP_LE and z3.is_var(c.arg(0)) and _alloc_form(c.arg(1)) is not None):
+        return None
+    if all(z3.is_app(x) and x.decl().kind() == z3.Z3_OP_SELECT and z3.is_var(x.arg(1)) and not _mentions_var(x.arg(0)) for x in (t, e)):
+        return c.arg(1), t.arg(0), e.arg(0)
+    return None
+
+
 def heap_select(arr, idx, params):
-    """Select(arr, idx), looking through stores at ids of objects allocated after entry when idx is an entry-state reference"""
+    """Select(arr, idx) with the heap's structure resolved where the allocation order decides it:
+    stores at other objects are skipped, "callee may have allocated" lambdas are entered on the side idx lies on.
+    Facts used: an entry-state reference (read from an H0! array, or a parameter) is <= alloc0; every alloc!k is >= the bound it was
+    created from (ALLOC_LB); ids are alloc + positive numeral."""
+    if params is None:
+        return z3.simplify(z3.Select(arr, idx))
     idx_s = z3.simplify(idx)
-    if params is not None and _is_prestate_ref(idx_s, params):
-        a = arr
-        if z3.is_const(a) and a.decl().kind() == z3.Z3_OP_UNINTERPRETED and a.decl().name() in ARRAY_DEFS:
-            a = ARRAY_DEFS[a.decl().name()]       # a named final-heap array: look through its defining term
-        while z3.is_app(a) and a.decl().kind() == z3.Z3_OP_STORE and _is_fresh_id(z3.simplify(a.arg(1))):
-            a = a.arg(0)
-        arr = a
-    return z3.simplify(z3.Select(arr, idx))
+    a = arr
+    if LOOK_THROUGH_FINAL[0] and z3.is_const(a) and a.decl().kind() == z3.Z3_OP_UNINTERPRETED and a.decl().name() in ARRAY_DEFS \
+            and _is_prestate_ref(idx_s, params):
+        a = ARRAY_DEFS[a.decl().name()]       # a named final-heap array: look through its defining term
+    for _ in range(200):
+        if z3.is_app(a) and a.decl().kind() == z3.Z3_OP_STORE:
+            i = z3.simplify(a.arg(1))
+            if i.eq(idx_s):
+                return z3.simplify(a.arg(2))
+            if _distinct_refs(i, idx_s, params):
+                a = a.arg(0)
+                continue
+            if _is_prestate_ref(idx_s, params) and _is_prestate_ref(i, params):
+                # two entry-state references that may or may not be the same object: split, and keep resolving underneath
+                return z3.simplify(z3.If(idx_s == i, a.arg(2), heap_select(a.arg(0), idx_s, params)))
+            break
+        parts = _alloc_lambda_parts(a)
+        if parts is not None:
+            side = _le_bound(idx_s, parts[0], params)
+            if side is True:
+                a = parts[1]
+                continue
+            if side is False:
+                a = parts[2]
+                continue
+        break
+    return z3.simplify(z3.Select(a, idx_s))
 
 
 def z3sort(s):
@@ -202,11 +380,15 @@ def z3sort_of_ghost(s):
 
 R.GHOSTS = {}
 R.NAME_CONSTS = {}
+R.SCRATCH_OPAQUES = set()
 
 
 def ghost(name, sort):
     """declare a ghost variable (scalar sort) or ghost map ('map', keysort, valsort)"""
     R.GHOSTS[name] = sort
+
+
+TAGS = {}       # id of an assumed formula -> where it came from ("<callee>:<clause label>", "requires:<n>", "inv:loop<n>:<label>")
 
 
 class State:
@@ -237,10 +419,12 @@ class State:
         s.index_terms = list(self.index_terms)
         return s
 
-    def assume(self, b):
+    def assume(self, b, tag=None):
         if b is True or (z3.is_true(b) if z3.is_expr(b) else False):
             return
         self.pc.append(b)
+        if tag is not None and z3.is_expr(b):
+            TAGS[b.get_id()] = tag
 
 
 class Ctx:
@@ -380,7 +564,7 @@ class Engine:
             if not z3.is_int_value(v.t):
                 facts.append(z3.And(v.t >= 0, v.t < len(s[2])))
         for f in facts:
-            st.assume(f if guard is None else z3.Implies(guard, f))
+            st.assume(f if guard is None else z3.Implies(guard, f), tag="typing")
         return v
 
     def field_arrays(self, cname, fname):
@@ -402,7 +586,8 @@ class Engine:
         v = V(fs, heap_select(a, obj_t, self.param_consts))
         return self.typing_facts(st, v, guard=z3.And(obj_t >= 1, obj_t <= st.heap.alloc))
 
-    def store_field(self, st, obj_t, cname, fname, val, node=None):
+    def store_field(self, st, obj_t, cname, fname, val, node=None, init=False):
+        """init=True: initialisation of an object allocated by the very operation that stores (not an effect on existing state)"""
         owner = R.field_owner(cname, fname)
         if owner is None:
             raise Unsupported(f"store to undeclared field {cname}.{fname}")
@@ -412,7 +597,8 @@ class Engine:
         if fs[0] == "senum" and not z3.is_int_value(z3.simplify(val.t)):
             self.oblige(st, z3.And(val.t >= 0, val.t < len(fs[2])), "sort-inv", f"{name}", node,
                         text=f"value stored in {name} is one of {fs[2]}")
-        self.note_write(st, name, obj_t, node)
+        if not init:
+            self.note_write(st, name, obj_t, node)
         a = self.arr(st, name)
         if fs[0] in ("opt", "ids"):
             n = self.arr(st, name + "#n")
@@ -569,6 +755,27 @@ class Engine:
         if isinstance(goal, bool):
             goal = z3.BoolVal(goal)
         hyps = list(st.pc)
+        uses = getattr(self.contract, "uses", None) if self.contract is not None else None
+        if uses and kind in ("post", "yield", "site") and detail in uses:
+            from .solve import has_quant
+            allowed = uses[detail]
+            def ok_tag(t):
+                return t is not None and any(t == a or t.startswith(a) for a in allowed)
+            sel = []
+            for h in hyps:
+                t = TAGS.get(h.get_id())
+                # conjunctions are split: their quantifier-free conjuncts are always kept
+                stack = [h]
+                while stack:
+                    x = stack.pop()
+                    if z3.is_and(x):
+                        stack.extend(x.children())
+                    elif t == "typing" and "typing" not in allowed and has_quant(x, lambdas_count=True):
+                        continue        # a well-formedness fact about a heap read that could not be resolved (still mentions a lambda): not needed
+                    elif not has_quant(x, lambdas_count=False) or ok_tag(t):
+                        sel.append(x)
+            hyps = sel
+            text = text + "   [quantified hypotheses used: " + ", ".join(allowed) + "]"
         # instantiation hints: single-variable universally quantified hypotheses at the ground list indices of this path
         # (instances of true hypotheses: sound; saves the solver the search for the obvious instances)
         if st.index_terms and self.contract is not None and getattr(self.contract, 'index_hints', False):
@@ -1364,6 +1571,10 @@ class Engine:
     def expand_modifies(self, mods):
         out = []
         for m in mods:
+            if "@" in m:        # object-granular: "Class.field@expr" / "list@expr" -- only that object's cell may change
+                base, expr = m.split("@", 1)
+                out.append(self.expand_modifies([base])[0] + "@" + expr)
+                continue
             if m in ("list",) or m.startswith("ghost.") or m.startswith("global."):
                 out.append(m)
                 continue
@@ -1409,6 +1620,14 @@ class Engine:
             cnd = se.boolean(cond)
             raise_conds.append((exc, cnd, exc in c.raises and cond is c.raises[exc]))
         mods = self.expand_modifies(c.modifies)
+        # object-granular modifies: the objects are named by expressions over the callee's parameters, evaluated before the call
+        gran = {}
+        for m in mods:
+            if "@" in m:
+                base, expr = m.split("@", 1)
+                gran.setdefault(base, []).append(z3.simplify(lift(se.value(expr)).t))
+        mods = [m for m in mods if "@" not in m]
+        self._gran = gran
         for exc, cnd, _ in raise_conds:
             cs = z3.simplify(cnd)
             if z3.is_false(cs):
@@ -1433,8 +1652,14 @@ class Engine:
         if res is not None:
             post.env["result"] = res
         se2 = SpecEval(self, post, pre_state=old_heap_state)
-        for e in c.ensures:
-            st.assume(se2.boolean(e))
+        short = key.split(".", 1)[1] if "." in key else key
+        for i_e, e in enumerate(c.ensures):
+            n_before = len(post.pc)
+            g_e = se2.boolean(e)
+            # facts produced while evaluating the clause (typing facts under binders) come first, then the clause itself
+            st.pc.extend(post.pc[len(st.pc):])
+            st.assume(g_e, tag=f"{short}:{c.labels.get(e, i_e)}")
+            post.pc = list(st.pc)
         st.pc.extend(post.pc[len(st.pc):])
         if c.returns == NONE or c.returns is None:
             return k(st, VNONE)
@@ -1446,7 +1671,9 @@ class Engine:
         before the call (the callee may allocate and initialise fresh objects)."""
         alloc0 = st.heap.alloc
         modset = set()
+        gran = getattr(self, "_gran", {}) or {}
         st.wlog.extend(mods)
+        st.wlog.extend(gran)
         for m in mods:
             if m == "list":
                 modset |= {"list.len", "list.I", "list.R", "list.S", "list.nan"}
@@ -1455,19 +1682,46 @@ class Engine:
             else:
                 modset |= {m, m + "#n"}
         self.havoc_arrays(st, mods)
-        if not c.allocates:
-            return
-        for nm in list(st.heap.arrs):
+        # arrays touched only at named objects: make sure they exist before the allocation step
+        gran_arrays = self.granular_arrays(st, gran)
+        if c.allocates:
+            for nm in list(st.heap.arrs):
+                if nm in modset:
+                    continue
+                old = st.heap.arrs[nm]
+                junk = fresh("al!" + nm, old.sort())
+                o = z3.Int(f"o!{next(_fresh)}")
+                # pre-existing objects keep their value, objects the callee allocated have arbitrary values
+                st.heap.arrs[nm] = z3.Lambda([o], z3.If(o <= alloc0, z3.Select(old, o), z3.Select(junk, o)))
+            na = fresh("alloc", z3.IntSort())
+            st.assume(na >= alloc0)
+            record_alloc(na, alloc0)
+            st.heap.alloc = na
+        self.apply_granular(st, gran_arrays, modset)
+
+    def granular_arrays(self, st, gran):
+        """{"Class.field" | "list": [object terms]} -> {array name: [object terms]} (arrays materialised)"""
+        out = {}
+        for base, objs in gran.items():
+            if base == "list":
+                names = ["list.len", "list.I", "list.R", "list.S", "list.nan"]
+            else:
+                cname, fname = base.split(".", 1)
+                fs = R.class_fields(cname)[fname]
+                names = [base] + ([base + "#n"] if fs[0] in ("opt", "ids") else [])
+            for nm in names:
+                self.arr(st, nm)
+                out.setdefault(nm, []).extend(objs)
+        return out
+
+    def apply_granular(self, st, gran_arrays, modset=()):
+        for nm, objs in gran_arrays.items():
             if nm in modset:
                 continue
-            old = st.heap.arrs[nm]
-            junk = fresh("al!" + nm, old.sort())
-            o = z3.Int(f"o!{next(_fresh)}")
-            # pre-existing objects keep their value, objects the callee allocated have arbitrary values
-            st.heap.arrs[nm] = z3.Lambda([o], z3.If(o <= alloc0, z3.Select(old, o), z3.Select(junk, o)))
-        na = fresh("alloc", z3.IntSort())
-        st.assume(na >= alloc0)
-        st.heap.alloc = na
+            a = st.heap.arrs[nm]
+            for ob_t in objs:
+                a = z3.Store(a, ob_t, fresh("gm!" + nm, a.sort().range()))
+            st.heap.arrs[nm] = a
 
     def site(self, node):
         return f"L{getattr(node, 'lineno', 0) + self.line_offset}"
@@ -1480,10 +1734,18 @@ class Engine:
             first = _first_line(stmts[0])
             for item in self.contract.abstract:
                 if first == item["from"]:
-                    j = next((n for n, s_ in enumerate(stmts) if _first_line(s_) == item["until"]), None)
+                    if item["until"] is None:
+                        j = len(stmts)          # to the end of the enclosing block
+                    else:
+                        j = next((n for n, s_ in enumerate(stmts) if _first_line(s_) == item["until"]), None)
                     if j is None:
                         raise Unsupported(f"abstracted block: end anchor {item['until']!r} not found (contract out of date)")
                     self.check_abstractable(stmts[:j], item)
+                    for exc in item.get("raises", []):
+                        # the block may raise these (declared; the condition is not modelled)
+                        sb = st.fork()
+                        sb.assume(fresh("abs_raise", z3.BoolSort()))
+                        self.throw(sb, exc, stmts[0], ctx)
                     for nm in item["havoc"]:
                         st.env[nm] = V(("abstract",), nm)
                     self.abstracted.append({"from": item["from"], "until": item["until"], "statements": j, "note": item.get("note", "")})
@@ -1496,17 +1758,21 @@ class Engine:
         havoc = set(item["havoc"])
         for s_ in stmts:
             for n in ast.walk(s_):
-                if isinstance(n, (ast.Return, ast.Raise, ast.Delete, ast.Global, ast.Nonlocal, ast.Yield, ast.FunctionDef, ast.Try, ast.With)):
+                if isinstance(n, ast.Raise):
+                    nm = n.exc.func.id if isinstance(n.exc, ast.Call) and isinstance(n.exc.func, ast.Name) else None
+                    if nm is None or nm not in item.get("raises", []):
+                        raise Unsupported(f"abstracted block raises {nm}, which the contract does not declare")
+                    continue
+                if isinstance(n, (ast.Return, ast.Delete, ast.Global, ast.Nonlocal, ast.Yield, ast.FunctionDef, ast.Try, ast.With)):
                     raise Unsupported(f"abstracted block contains {type(n).__name__}")
                 if isinstance(n, (ast.Assign, ast.AugAssign, ast.For)):
                     tgts = n.targets if isinstance(n, ast.Assign) else [n.target]
                     for t in tgts:
-                        for tn in ast.walk(t):
-                            if isinstance(tn, ast.Attribute):
-                                raise Unsupported("abstracted block stores to an attribute")
                         base = t
                         while isinstance(base, ast.Subscript):
                             base = base.value
+                        if isinstance(base, ast.Attribute):
+                            raise Unsupported("abstracted block stores to an attribute")
                         if isinstance(base, ast.Tuple):
                             names = [e.id for e in base.elts if isinstance(e, ast.Name)]
                         elif isinstance(base, ast.Name):
@@ -1538,7 +1804,32 @@ class Engine:
                 self.anchors_hit.add(src0)
 
         def after(s1):
+            sites = self.contract.assert_at if self.contract else {}
+            if sites:
+                try:
+                    src_s = ast.unparse(node).split("\n")[0].strip()
+                except Exception:
+                    src_s = ""
+                if src_s in sites:
+                    from .specs import SpecEval
+                    self.anchors_hit.add(src_s)
+                    # ghost updates anchored at the same statement run first (a site may talk about them)
+                    if src_s in (self.contract.ghost_at or {}):
+                        self.run_ghost(s1, self.contract.ghost_at[src_s])
+                        s1._ghost_done = src_s
+                    for i_c, cl in enumerate(sites[src_s]):
+                        g_c = SpecEval(self, s1, pre_state=s1.old).boolean(cl)
+                        self.oblige(s1, g_c, "site", f"{self.contract.labels.get(cl, i_c)}", node, text=cl)
             anchors = self.contract.ghost_at if self.contract else {}
+            if anchors and getattr(s1, "_ghost_done", None) is not None:
+                done = s1._ghost_done
+                s1._ghost_done = None
+                try:
+                    if ast.unparse(node).split("\n")[0].strip() == done:
+                        self.anchors_hit.add(done)
+                        return k(s1)
+                except Exception:
+                    pass
             if anchors:
                 try:
                     src = ast.unparse(node).split("\n")[0].strip()
@@ -1660,6 +1951,8 @@ class Engine:
             return k(st)
         if isinstance(tgt, ast.Attribute):
             def f(s1, o):
+                if o.s[0] == "opq" and o.s[1] in R.SCRATCH_OPAQUES:
+                    return k(s1)      # a local third-party parameter object (e.g. Chem.SmilesParserParams): its attributes are not modelled
                 if o.s[0] != "ref":
                     raise Unsupported(f"attribute store on {o}")
                 def store(s2, cname):
